@@ -47,6 +47,7 @@ func (ss *SlotScope) SetSlot(name string, content *SlotContent) {
 // If slot content was provided by the component user, use that.
 // Otherwise, render the fallback content (children of the slot element).
 func (v *Vue) evalSlot(ctx VueContext, node *html.Node, slotScope *SlotScope) ([]*html.Node, error) {
+	verifPoint(vpSlotEnter, 0, 0)
 	slotName := helpers.GetAttr(node, "name")
 	if slotName == "" {
 		slotName = "default"
